@@ -316,7 +316,9 @@ fn emitted_names_family(rep: &mut Report) {
     let read = |file: &str| -> Vec<String> {
         std::fs::read_to_string(format!("{}/mc/data/{file}", report::VERIF)).map(|t| t.lines().filter(|l| !l.is_empty() && l.is_ascii() && is_ident(l)).map(String::from).collect()).unwrap_or_default()
     };
-    let fields = read("idents_fields.txt");
+    let mut fields = read("idents_fields.txt");
+    // identifiers whose converted name starts with a digit (the dictionary has none)
+    fields.extend(["_1", "_2fa", "__3d", "_4_u"].iter().map(|s| s.to_string()));
     let variants = read("idents_variants.txt");
     let mut jobs: Vec<(String, bool, &'static str, Lang, bool)> = Vec::new();
     for (list, variant) in [(&fields, false), (&variants, true)] {
@@ -370,6 +372,7 @@ fn emitted_names_family(rep: &mut Report) {
         Some((exp, obs, src))
     });
     let mut judged = 0u64;
+    let mut unreadable = 0u64;
     let mut nontrivial = BTreeSet::new();
     for ((id, variant, rule, lang, prefixed), r) in jobs.iter().zip(results) {
         let Some((exp, obs, src)) = r else { continue };
@@ -379,6 +382,10 @@ fn emitted_names_family(rep: &mut Report) {
             nontrivial.insert(report::fnv64(&format!("{id}|{rule}|{pos}|{}", lang.name())));
         }
         let cfgname = if *prefixed { "all-knobs" } else { "plain" };
+        // underscore(s) + digit: the one family of identifiers whose member name a backend can only derive by dropping
+        // the underscores, which leaves a digit in front (known finding, see KF-C10-underscore-digit-field-names)
+        let digit_led = id.starts_with('_') && id.trim_start_matches('_').starts_with(|c: char| c.is_ascii_digit());
+        let shape = |i: &str| if digit_led { "underscore-digit-identifier".to_string() } else { shape(i) };
         match obs {
             Ok(Some(o)) if o == exp => {}
             Ok(o) => rep.vios.add(Violation {
@@ -386,13 +393,16 @@ fn emitted_names_family(rep: &mut Report) {
                 detail: json!({"ident": id, "rule": rule, "position": pos, "lang": lang.name(), "configuration": cfgname, "computed_by_the_parser": exp, "emitted_wire_name": o, "source": src}),
             }),
             Err(e) if e.starts_with("render:") => rep.machinery(format!("emitted names: invalid Rust rendered for {id}: {e}")),
+            // nothing to read a name from: whether the file is well-formed at all is C10's statement (which has these
+            // identifiers as a feature and lists them as a known finding); only this one family is passed over
+            Err(class) if digit_led && class.starts_with("unparseable-output") => unreadable += 1,
             Err(class) => rep.vios.add(Violation {
                 sig: format!("C16|{rule}|{pos}|emitted-by-{}|cfg={cfgname}|{}|no-output:{}", lang.name(), shape(id), class.split(':').take(2).collect::<Vec<_>>().join(":")),
                 detail: json!({"ident": id, "rule": rule, "position": pos, "lang": lang.name(), "configuration": cfgname, "computed_by_the_parser": exp, "failure": class, "source": src}),
             }),
         }
     }
-    rep.cov("emitted_names", json!({"field_identifiers": fields.len(), "variant_identifiers": variants.len(), "rules": 8, "languages": 6, "configurations": ["plain", "all naming knobs on (prefix, package, Go uppercase_acronyms [ID, URL], …)"], "generated_and_read_back": judged}));
+    rep.cov("emitted_names", json!({"field_identifiers": fields.len(), "variant_identifiers": variants.len(), "rules": 8, "languages": 6, "configurations": ["plain", "all naming knobs on (prefix, package, Go uppercase_acronyms [ID, URL], …)"], "generated_and_read_back": judged, "underscore_digit_identifiers_whose_output_could_not_be_read": unreadable}));
     rep.cov_add("evaluations", judged);
     rep.cov_add("distinct_nontrivial", nontrivial.len() as u64);
 }
